@@ -310,3 +310,46 @@ func VerifNew[K comparable, V any](o *Options[K, V]) (*Cache[K, V], error) {
 	}
 	return &Cache[K, V]{cache: newCache(o)}, nil
 }
+
+// ---- C18: sketch and admission exports ----
+
+// VerifSketch wraps the private count-min sketch.
+type VerifSketch struct{ s *sketch[int] }
+
+func VerifNewSketch() *VerifSketch                { return &VerifSketch{s: newSketch[int]()} }
+func (v *VerifSketch) EnsureCapacity(c uint64)    { v.s.ensureCapacity(c) }
+func (v *VerifSketch) Increment(k int)            { v.s.increment(k) }
+func (v *VerifSketch) Frequency(k int) uint64     { return v.s.frequency(k) }
+func (v *VerifSketch) Reset()                     { v.s.reset() }
+func (v *VerifSketch) Size() uint64               { return v.s.size }
+func (v *VerifSketch) SampleSize() uint64         { return v.s.sampleSize }
+func (v *VerifSketch) TableLen() int              { return len(v.s.table) }
+func (v *VerifSketch) NotInitialized() bool       { return v.s.isNotInitialized() }
+
+// VerifSketchPositions returns the block and the four (slot, counter index) pairs a raw hash maps to.
+func VerifSketchPositions(raw uint64, tableLen int) (block uint64, pos [4][2]uint64) {
+	blockMask := (uint64(tableLen) >> 3) - 1
+	blockHash := spread(raw)
+	counterHash := rehash(blockHash)
+	block = (blockHash & blockMask) << 3
+	for i := uint64(0); i < 4; i++ {
+		h := counterHash >> (i << 3)
+		pos[i] = [2]uint64{block + (h & 1) + (i << 1), (h >> 1) & 15}
+	}
+	return block, pos
+}
+
+// VerifAdmit evaluates the admission decision of a policy whose sketch holds the given frequencies.
+type VerifPolicy struct{ p *policy[int, int] }
+
+func VerifNewPolicy(capacity uint64) *VerifPolicy {
+	p := newPolicy[int, int](false)
+	p.sketch.ensureCapacity(capacity)
+	return &VerifPolicy{p: p}
+}
+func (v *VerifPolicy) Increment(k int)        { v.p.sketch.increment(k) }
+func (v *VerifPolicy) Frequency(k int) uint64 { return v.p.sketch.frequency(k) }
+func (v *VerifPolicy) Admit(candidate, victim int, rand uint32) bool {
+	v.p.rand = func() uint32 { return rand }
+	return v.p.admit(candidate, victim)
+}
